@@ -7,6 +7,7 @@
 //!          (flat key/value snapshots and their differences) for validation by
 //!          spec/Trace_Subshell.tla.
 //! `one`  : runs a single scenario (debugging / replay), prints script + record.
+mod runner;
 mod scen;
 
 fn main() {
